@@ -16,6 +16,7 @@ type Tape struct {
 	Gen         []uint32 // decisions as taken (canonical form), always recorded
 	Sched       []uint32
 	gi, si      int
+	Force       []uint32 // values returned by the first G draws in record mode (enumerated leading choices)
 }
 
 // SplitMix64 step.
@@ -63,6 +64,8 @@ func (t *Tape) draw(n int, replay bool, in []uint32, rec *[]uint32, idx *int) in
 			u = in[*idx]
 		}
 		v = int(u % uint32(n))
+	} else if rec == &t.Gen && *idx < len(t.Force) {
+		v = int(t.Force[*idx] % uint32(n))
 	} else {
 		v = int(splitmix(&t.state) % uint64(n))
 	}
